@@ -9,6 +9,7 @@ pub mod cmd_codec;
 pub mod cmd_geo;
 pub mod cmd_complete;
 pub mod cmd_rings;
+pub mod cmd_surface;
 pub mod cmd_types;
 pub mod cmd_foreign;
 pub mod cmd_faults;
